@@ -121,6 +121,10 @@ class C07(PropBase):
         if sub_root:
             fl = "frozen=True" if group[0].get("flags", {}).get("frozen") else ""
             mod["decls"].append({"d": "raw", "n": "VwRSub", "src": f"@dataclasses.dataclass({fl})\nclass VwRSub({group[0]['n']}):\n    pass\n"})
+        # an unrelated class with bare (unparameterised) containers: routines built for it earlier in the process
+        # say nothing about list[X] / dict[str, X] / tuple[X, ...]
+        mod["decls"].append({"d": "raw", "n": "VwInv", "src": "@dataclasses.dataclass\nclass VwInv:\n    items: list = dataclasses.field(default_factory=list)\n"
+                                                             "    extra: dict = dataclasses.field(default_factory=dict)\n    pair: tuple = ()\n    fixed: tuple[int, str] = (0, '')\n"})
         stmt_alias = rng.random() < 0.25
         if stmt_alias:
             mod["decls"].append({"d": "raw", "n": "VwTreeP", "src": "type VwTreeP = dict[str, VwTreeP] | int\n"})
@@ -272,6 +276,8 @@ class C07(PropBase):
                                        for fk, fv in lv["f"].items()}
                         step = {"op": "unmarshal", "t": t, "x": {"$chain": wl}, "mod": "vw0", "vdepth": d, "exhaust": True, "rejected": True}
             steps.append(step)
+        if rng.random() < 0.5:
+            steps.insert(0, {"op": "build", "kind": rng.choice(["marshaller", "codec", "unmarshaller"]), "t": {"k": "raw", "src": "VwInv"}, "mod": "vw0"})
         other_first = rng.random() < 0.5
         for st in steps:
             t = st.get("t")
